@@ -1,0 +1,26 @@
+//! Verification hooks (compiled only with `--cfg blue_verif`).
+//!
+//! Step control: with single-step mode on, `KeyValueStore::_memtable_thread` returns after one
+//! flush and `LsmTree::compaction_thread` returns after one compaction or when it would sleep.
+//! The code paths of flush and compaction themselves are unchanged.
+
+use std::sync::atomic::{AtomicBool, AtomicU64, Ordering};
+
+static SINGLE_STEP: AtomicBool = AtomicBool::new(false);
+static COMPACTIONS: AtomicU64 = AtomicU64::new(0);
+
+pub fn set_single_step(on: bool) {
+    SINGLE_STEP.store(on, Ordering::SeqCst);
+}
+
+pub fn single_step() -> bool {
+    SINGLE_STEP.load(Ordering::SeqCst)
+}
+
+pub(crate) fn compaction_performed() {
+    COMPACTIONS.fetch_add(1, Ordering::SeqCst);
+}
+
+pub fn compactions_performed() -> u64 {
+    COMPACTIONS.load(Ordering::SeqCst)
+}
